@@ -88,6 +88,15 @@ Theorem c15_fields_keep_data : forall c p s s' r f,
 Proof. exact step_keeps_data. Qed.
 Print Assumptions c15_fields_keep_data.
 
+(* ---- (6b) FULL (after fix F-C15d): a create_<type> call whose remaining arguments are invalid (unknown nformat, empty
+   categorical key, fixed-string length 0: type codes >= 5 of the model) raises and changes nothing at all — in
+   particular it leaves no group behind in the file. As found, base_field_contructor had already created the group when
+   the specific constructor failed: the file then held a group the dataframe did not list (witness: corpus/C15). *)
+Theorem c15_invalid_create_changes_nothing : forall c i d n t dat s s' r,
+  5 <= t -> step c (OCreate i d n t dat) s = (s', r) -> s' = s /\ is_ok r = false.
+Proof. exact invalid_create_changes_nothing. Qed.
+Print Assumptions c15_invalid_create_changes_nothing.
+
 (* ---- (7) FULL trace theorem: everything ./check evaluates on the model side is true on every history.
    For every history whose dataframe.move operations address the two observed files (wf_op; the harness never
    does otherwise), every verdict of every recorded step - names = groups, live handles keep type and data, a
